@@ -29,8 +29,8 @@ type c02Case struct {
 	Auth    string `json:"auth"`    // "-" absent
 	RX      string `json:"rx"`      // "-" absent
 	Noise   string `json:"noise"`   // "", "padding", "udp"
-	Masq    int    `json:"masq"`    // 0 default 404, 1 custom echo handler, 2 bare-Write handler, 3 streaming handler
-	History int    `json:"history"` // 0 fresh, 1 after rejected auth, 2 after accepted auth, 3 after two masq requests, 4/5 another connection authenticated (closed / still open), 6 long-busy connection, 7/8 another connection authenticated with a credential since revoked (closed / still open)
+	Masq    int    `json:"masq"`    // 0 default 404, 1 custom echo handler, 2 bare-Write handler, 3 streaming handler, 4 handler that aborts its first call
+	History int    `json:"history"` // 0 fresh, 1 after rejected auth, 2 after accepted auth, 3 after two masq requests, 4/5 another connection authenticated (closed / still open), 6 long-busy connection, 7/8 another connection authenticated with a credential since revoked (closed / still open), 9 after a rejected auth whose masquerade response the handler aborted
 }
 
 var (
@@ -50,8 +50,20 @@ var (
 		// independently seeded change C02-9: the server cached accepted auth strings for 60 s and answered
 		// 233 from the cache without consulting the authenticator.)
 		"after-another-connection-was-accepted-with-a-credential-since-revoked-and-closed",
-		"while-another-connection-accepted-with-a-credential-since-revoked-is-open"}
+		"while-another-connection-accepted-with-a-credential-since-revoked-is-open",
+		// history 9 (masquerade handler 4 only): an earlier POST hysteria/auth with rejected credentials
+		// on this connection was handed to the masquerade handler, which ABORTED it (see c02Abort); the
+		// HTTP/3 layer resets that one request stream and keeps the connection, so the requests that
+		// follow on it are still owed the masquerade response. (Added after the independently seeded
+		// change C02-10: the per-connection auth mutex was released by explicit Unlock calls instead of
+		// a defer, so a handler abort left it locked and every later auth-shaped request hung.)
+		"after-a-rejected-auth-whose-masquerade-response-the-handler-aborted"}
+	c02Masqs = []string{"default 404", "custom echo handler", "bare-Write handler (status and Content-Type left to the server)",
+		"streaming handler (needs http.Flusher)", "handler that aborts (http.ErrAbortHandler) its first call and echoes afterwards"}
 )
+
+// c02HistAborted: the history in which the connection's first request was an aborted masquerade response.
+const c02HistAborted = 9
 
 // c02Revoked: histories in which the credential "good" was accepted once (on another connection)
 // and is rejected by the authenticator ever after.
@@ -101,6 +113,23 @@ func (c02Stream) ServeHTTP(w http.ResponseWriter, r *http.Request) {
 	f.Flush()
 }
 
+// c02Abort: a handler that ABORTS its first call the way net/http handlers do - by panicking with
+// http.ErrAbortHandler, as httputil.ReverseProxy does when its upstream dies mid-response - and
+// answers like c02Echo from then on. The HTTP/3 layer recovers the panic per request stream (the
+// peer sees that stream reset, nothing else), so what the handler alone does on its n-th call is
+// still exactly what the peer must see. (Added after the independently seeded change C02-10: a
+// handler abort on a rejected auth request left the connection's auth mutex locked.)
+type c02Abort struct{ calls int }
+
+func (a *c02Abort) ServeHTTP(w http.ResponseWriter, r *http.Request) {
+	a.calls++
+	if a.calls == 1 {
+		w.Header().Set("X-Masq", "upstream gone")
+		panic(http.ErrAbortHandler)
+	}
+	c02Echo{}.ServeHTTP(w, r)
+}
+
 func c02MasqHandler(kind int) http.Handler {
 	switch kind {
 	case 1:
@@ -109,6 +138,8 @@ func c02MasqHandler(kind int) http.Handler {
 		return c02Plain{}
 	case 3:
 		return c02Stream{}
+	case 4:
+		return &c02Abort{}
 	}
 	return nil
 }
@@ -141,8 +172,10 @@ func c02Header(c *c02Case) http.Header {
 
 func c02Masq(c *c02Case) http.Handler { return c02MasqHandler(c.Masq) }
 
-// c02Expected runs the configured masquerade handler alone on an identical request.
-func c02Expected(c *c02Case, remote string) *vh3.Response {
+// c02Expected runs the configured masquerade handler alone on an identical request; prior is the
+// number of calls the server's instance of a stateful handler (c02Abort) has seen before it.
+// aborted: the handler alone aborts this request (panics with http.ErrAbortHandler).
+func c02Expected(c *c02Case, remote string, prior int) (want *vh3.Response, aborted bool) {
 	u, _ := url.ParseRequestURI(c.Path)
 	u.Host = c.Host
 	req := &http.Request{Method: c.Method, URL: u, Host: c.Host}
@@ -155,8 +188,21 @@ func c02Expected(c *c02Case, remote string) *vh3.Response {
 	if mh := c02MasqHandler(c.Masq); mh != nil {
 		h = mh
 	}
-	h.ServeHTTP(rec, req)
-	return &vh3.Response{Status: rec.Code, Header: rec.Header(), Body: rec.Body.Bytes()}
+	if ab, ok := h.(*c02Abort); ok {
+		ab.calls = prior
+	}
+	func() {
+		defer func() {
+			if p := recover(); p != nil {
+				if p != http.ErrAbortHandler {
+					panic(p)
+				}
+				aborted = true
+			}
+		}()
+		h.ServeHTTP(rec, req)
+	}()
+	return &vh3.Response{Status: rec.Code, Header: rec.Header(), Body: rec.Body.Bytes()}, aborted
 }
 
 func c02HeaderString(h http.Header) string {
@@ -192,7 +238,9 @@ func c02Accepted(c *c02Case) bool {
 
 func c02Run(c *c02Case) (clause string) {
 	o := vsched.RunDefault(vsched.Options{}, func(e *vsched.Exec) {
-		r := newRig(e, rigOpts{Masq: c02Masq(c)})
+		masq := c02Masq(c)
+		abort, _ := masq.(*c02Abort)
+		r := newRig(e, rigOpts{Masq: masq})
 		if r.srv == nil {
 			return
 		}
@@ -236,18 +284,40 @@ func c02Run(c *c02Case) (clause string) {
 				_, _ = cl.request("GET", "example.com", "/", nil)
 				e.Sleep(int64(20 * time.Second))
 			}
+		case c02HistAborted:
+			// the rejected auth request is the aborting handler's first call: the peer sees that request
+			// stream reset (no response), the connection stays
+			if abort == nil {
+				e.Fail("history: %s needs the aborting masquerade handler", c02Histories[c.History])
+			}
+			if resp, err := cl.auth("bad", 0); err == nil {
+				e.Fail("history: rejected auth that the masquerade handler aborts got a response %v", resp)
+			}
+		}
+		prior := 0
+		if abort != nil {
+			prior = abort.calls
 		}
 		resp, err := cl.request(c.Method, c.Host, c.Path, c02Header(c))
-		if err != nil {
-			e.Fail("request failed: %v", err)
-			return
-		}
 		if c02Accepted(c) {
+			if err != nil {
+				e.Fail("request failed: %v", err)
+				return
+			}
 			if resp.Status != protocol.StatusAuthOK {
 				e.Fail("accepted authentication request answered with status %d", resp.Status)
 			}
+		} else if want, aborted := c02Expected(c, cl.Addr(), prior); aborted {
+			// the masquerade handler alone aborts this request: the peer must see exactly that - its
+			// request stream reset by the HTTP/3 layer, no response (let alone a 233)
+			if err == nil {
+				e.Fail("status %d for a request the masquerade handler alone aborts", resp.Status)
+			}
 		} else {
-			want := c02Expected(c, cl.Addr())
+			if err != nil {
+				e.Fail("request failed: %v", err)
+				return
+			}
 			if resp.Status == protocol.StatusAuthOK {
 				e.Fail("status 233 for a request that is not an accepted authentication request")
 			}
@@ -329,10 +399,10 @@ func c02Enumerate(sh *evidence.Shard) {
 	}
 	p := sh.Part("requests", "enum")
 	p.Alphabet = map[string]any{"method": c02Methods, "host": c02Hosts, "path": c02Paths, "Hysteria-Auth": c02Auths,
-		"Hysteria-CC-RX": c02RXs, "noise": c02Noises, "masquerade": []string{"default 404", "custom echo handler", "bare-Write handler (status and Content-Type left to the server)", "streaming handler (needs http.Flusher)"}, "history": c02Histories}
+		"Hysteria-CC-RX": c02RXs, "noise": c02Noises, "masquerade": c02Masqs, "history": c02Histories}
 	var item int64
 	for hi := range c02Histories {
-		for mq := 0; mq < 4; mq++ {
+		for mq := range c02Masqs {
 			for _, m := range c02Methods {
 				for _, h := range c02Hosts {
 					for _, pa := range c02Paths {
@@ -343,8 +413,11 @@ func c02Enumerate(sh *evidence.Shard) {
 									if _, err := url.ParseRequestURI(pa); err != nil {
 										continue // not a request an HTTP/3 server hands to its handler
 									}
-									if mq >= 2 && (rx != "-" || no != "" || (hi > 1 && !env.Thorough())) {
-										continue // plain/streaming handlers: requests without CC-RX/noise variation
+									if (mq == 4 && hi != 0 && hi != c02HistAborted) || (mq != 4 && hi == c02HistAborted) {
+										continue // aborting handler: its first call is this request (fresh) or the rejected auth of history 9
+									}
+									if mq >= 2 && (rx != "-" || no != "" || (hi > 1 && hi != c02HistAborted && !env.Thorough())) {
+										continue // plain/streaming/aborting handlers: requests without CC-RX/noise variation
 									}
 									if !env.Thorough() {
 										// quick: full product on a fresh connection for auth/rx variation only on
